@@ -416,12 +416,18 @@ def with_customs(spec, seed):
 _CACHE = {}
 
 
-def generated(tier, seed, n_quick=8, n_thorough=96, log=None):
-    """[(name, spec)]: the drawn descriptions of this run (quick: a few chosen by VERIF_SEED; thorough: many, two sizes)"""
-    key = (tier, seed, n_quick, n_thorough)
+def generated(tier, seed, n_quick=8, n_thorough=96, log=None, prefer_small=False):
+    """[(name, spec)]: the drawn descriptions of this run (quick: a few chosen by VERIF_SEED; thorough: many, two sizes).
+    prefer_small (layout-heavy checks, quick tier): of 4 x n_quick draws the n_quick with the fewest operators are used"""
+    key = (tier, seed, n_quick, n_thorough, prefer_small)
     if key not in _CACHE:
         skipped = []
-        if tier == 'quick':
+        if tier == 'quick' and prefer_small:
+            seeds2 = [seed * 1000 + k for k in range(4 * n_quick)]
+            cands = valid_generated(seeds2, 2, skipped)
+            cands.sort(key=lambda x: (sum(len(f['ops']) for f in x[1].funcs), x[0]))
+            out = [('gen/seed%d' % s, sp) for s, sp in cands[:n_quick]]
+        elif tier == 'quick':
             seeds2 = [seed * 1000 + k for k in range(n_quick)]
             out = [('gen/seed%d' % s, sp) for s, sp in valid_generated(seeds2, 2, skipped)]
         else:
